@@ -152,6 +152,9 @@ func (c *vC12) checkJSON(b *vBlock, bytesToo bool) {
 				c.sink("C12/CommitmentProof.JSON/round-trip", fmt.Sprintf("commitment proof of %v does not survive its JSON form: %v; block %q", r.Spec, err, b.Spec), rp("cproof", "round-trip"))
 			}
 			for _, mu := range muts(doc) {
+				if c.expired() {
+					return
+				}
 				if !c.caseDone(newVFPs("json-cp", b.FP, r.Commitment, mu.Doc), !bytes.Equal(mu.Doc, doc)) {
 					continue
 				}
@@ -243,6 +246,9 @@ func (c *vC12) checkJSON(b *vBlock, bytesToo bool) {
 				c.sink("C12/GetRangeResult.JSON/round-trip", fmt.Sprintf("range result [%d,%d) does not survive its JSON form: %v; block %q", r.Start, r.Start+1, err, b.Spec), rp("range", "round-trip"))
 			}
 			for _, mu := range muts(doc) {
+				if c.expired() {
+					return
+				}
 				if !c.caseDone(newVFPs("json-range", b.FP, r.Start, mu.Doc), !bytes.Equal(mu.Doc, doc)) {
 					continue
 				}
